@@ -195,7 +195,7 @@ theorem OI_times {p q : Poly} (h : OI p ∨ OI q) : OI (Poly.times p q) := by
 
 theorem OI_inftyPart (p : Poly) : OI (Matrix.inftyPart p) := by
   unfold Matrix.inftyPart
-  apply AllS_ofList (Or.inl rfl)
+  refine AllS_ofList (Q := fun s => s = .o ∨ s = .i) (Or.inl rfl) ?_
   intro m hm
   obtain ⟨m0, hm0, rfl⟩ := List.mem_map.1 hm
   have h0 := (List.mem_filter.1 hm0).2
